@@ -1260,7 +1260,7 @@ impl Prop for C07 {
             Tier::Thorough => 200_000,
         }
     }
-    fn gen(&self, rng: &mut Rng, tier: Tier, _idx: u64) -> Case {
+    fn gen(&self, rng: &mut Rng, tier: Tier, idx: u64) -> Case {
         let size = match tier {
             Tier::Quick => match rng.weighted(&[700, 240, 57, 3]) {
                 0 => Size::Small,
@@ -1418,7 +1418,23 @@ impl Prop for C07 {
             },
             _ => Entry::Raw,
         };
+        // at fixed places of every batch: Patience over more than 2^16 unique
+        // common items in one run (raw entry, a handful of expiry points)
+        let anchor_giant = idx % 20_000 == 777;
+        let entry = if anchor_giant {
+            let (o, n) = crate::gen::gen_long_anchor_run(rng);
+            seq.old_range = (0, o.len());
+            seq.new_range = (0, n.len());
+            seq.old = o;
+            seq.new = n;
+            seq.index = IndexKind::Slice;
+            seq.alg = Alg::Patience;
+            Entry::Raw
+        } else {
+            entry
+        };
         let cap = match (tier, size) {
+            _ if anchor_giant => 6,
             (Tier::Quick, Size::Small) | (Tier::Quick, Size::Medium) => 256,
             (Tier::Quick, Size::Huge(_)) => 5,
             (Tier::Quick, _) => 24,
